@@ -102,6 +102,9 @@ def gen_case(seed, tier):
             steps.append({"k": "ev", "l": ch})
     elif kind in ("async", "reset"):
         config.update(async_edge=cfg.choice(["pos", "neg"]) if kind == "async" else "pos")
+        # the primitive needs a rising-edge output domain and must refuse a falling-edge one wherever it is defined, e.g.
+        # in a submodule, shadowing a rising-edge domain of the same name above it
+        config["shadow_neg"] = cfg.random() < 0.08
         levels = {"o": 0, "x": 0, "a": 0}
         p_a = wl.choice([0.05, 0.15, 0.4])
         for which in _clock_walk(wl, fl, ("o", "x"), nsteps, levels):
@@ -311,6 +314,36 @@ def run_case(case):
         domains = [DomainSpec("i", edge=config["i_edge"], reset_less=True),
                    DomainSpec("o", edge=config["o_edge"], reset_less=True)]
         P.update(pulses=0, back_to_back_pulses=0, precondition_broken=0, coincident_pulse_and_o_edge=0, unsampled_input_glitch=0)
+    if config.get("shadow_neg"):
+        from amaranth.hdl import ClockDomain, Elaboratable
+        from amaranth.hdl._ir import DomainRequirementFailed
+        from amaranth.sim import Simulator
+        inner = dut
+
+        class Shadow(Elaboratable):
+            def elaborate(self, platform):
+                m = Module()
+                m.domains.o = ClockDomain("o", clk_edge="neg")
+                m.submodules.inner = inner
+                return m
+
+        class Outer(Elaboratable):
+            def elaborate(self, platform):
+                m = Module()
+                m.domains.o = ClockDomain("o")
+                m.submodules.sub = Shadow()
+                return m
+
+        def refuse():
+            try:
+                Simulator(Outer())
+            except DomainRequirementFailed:
+                P["negedge_domain_refused"] = P.get("negedge_domain_refused", 0) + 1
+                return
+            raise Violation("negedge_domain_accepted", -1, {"kind": kind, "stages": stages})
+        run_guarded(res, refuse)
+        dig.add(("shadow_neg", kind, stages))
+        return finish(res, dig, stats, True)
     run = ManualRun(dut, domains, sched_mode=case["sched"]["mode"], sched_seed=case["sched"]["seed"],
                     extra_lines=extra_lines)
     if kind == "reset":
